@@ -102,7 +102,15 @@ def run(pid, mod, chk, root):
             rskip += 1
             continue
         bad = [k for k, r in viol if k not in known]
-        if bad or inc:
+        # refactorings recorded as "not decided" for this property (a private anchor was split / re-signatured) may stay INCONCLUSIVE,
+        # they must never turn into a violation
+        allowed_inc = False
+        try:
+            rj = json.load(open(os.path.join(os.path.dirname(patch), "result.json")))
+            allowed_inc = rj.get("alarms", {}).get(pid, {}).get("exit") == 2
+        except Exception:  # noqa: BLE001
+            pass
+        if bad or (inc and not allowed_inc):
             noisy.append(name)
             chk.unknown("selftest", "behaviour-preserving refactoring %s raises %s" % (name, bad[:2] or inc[:1]))
         else:
